@@ -9,6 +9,7 @@ import PV.Generated.TreeLoops
 comparator calls equal are one key).  The outputs compared are everything the API shows: `nnodes`
 after insert/remove, the found flag, lookup results, the pairs visited by `foreach` up to any stop
 point, and the objects handed to the destroy notifiers (used again by C14).
+Histories may contain inserts whose node allocation fails (`Op.insf`): `replace_allocates_nothing`, `failed_insert_is_identity`.
 `newFull_iff` / `newFull_alloc_failure`: which creation calls give a tree (bad type, no comparator, failed allocation: NULL).
 -/
 namespace PV.Tree
@@ -47,6 +48,14 @@ theorem spec_sorted [TransCmp cmp] (ops : List (Op κ ν)) (l : List (κ × ν))
   | cons op ops ih =>
     cases op with
     | ins k v => exact ih _ (SM.sorted_insert hs k v)
+    | insf k v =>
+      by_cases hf : (SM.find cmp l k).isSome = true
+      · have e : specStep cmp l (.insf k v) = specStep cmp l (.ins k v) := by simp only [specStep, hf, if_true]
+        simp only [specRun, e]
+        exact ih _ (SM.sorted_insert hs k v)
+      · have e : specStep cmp l (.insf k v) = (l, .ins l.length []) := by simp only [specStep, hf]; rfl
+        simp only [specRun, e]
+        exact ih _ hs
     | rem k => exact ih _ (SM.sorted_erase hs k)
     | get k => exact ih _ hs
     | each j => exact ih _ hs
@@ -61,6 +70,44 @@ theorem count_is_length (l : List (κ × ν)) : (specStep cmp l .count).2 = .num
     free / new of ptree.c are the texts `Run` was written from; the variants test only the sign of the comparator -/
 theorem tree_source_as_modelled :
     Generated.treeLoopsAsModelled = true ∧ Generated.treeCallsAsModelled = true ∧ Generated.treeCompareBySign = true := by
+  decide
+
+/-! ### inserts whose node allocation fails (`Op.insf`) are step kinds of the histories above
+
+`bst_run_refines` / `avl_run_refines` / `rb_run_refines` (and C13's balance invariants, C14's exactly-once bookkeeping)
+quantify over every `List (Op κ ν)`, so over histories with failing inserts at any point.  The two cases of such a step: -/
+
+/-- replace path: when an equal key is stored the insert allocates no node, so an allocation failure cannot change it —
+    the failing-allocator step IS the ordinary insert step, in the spec and in all three variants -/
+theorem replace_allocates_nothing (k : κ) (v : ν) :
+    (∀ l : List (κ × ν), (SM.find cmp l k).isSome = true → specStep cmp l (.insf k v) = specStep cmp l (.ins k v)) ∧
+    (∀ s : BT κ ν × Int, (s.1.lookup cmp k).isSome = true → bstStep cmp s (.insf k v) = bstStep cmp s (.ins k v)) ∧
+    (∀ s : AT κ ν × Int, (s.1.toBT.lookup cmp k).isSome = true → avlStep cmp s (.insf k v) = avlStep cmp s (.ins k v)) ∧
+    (∀ s : RT κ ν × Int, (s.1.toBT.lookup cmp k).isSome = true → rbStep cmp s (.insf k v) = rbStep cmp s (.ins k v)) := by
+  refine ⟨fun l h => ?_, fun s h => ?_, fun s h => ?_, fun s h => ?_⟩
+  · simp only [specStep, h, if_true]
+  · simp only [bstStep, h, if_true]
+  · simp only [avlStep, h, if_true]
+  · simp only [rbStep, h, if_true]
+
+/-- new key, allocation fails: the tree is literally the same tree (same shape, same stored balance factors and colours,
+    same `nnodes`), the call reports the unchanged count and hands nothing to the destroy notifiers -/
+theorem failed_insert_is_identity (k : κ) (v : ν) :
+    (∀ l : List (κ × ν), (SM.find cmp l k).isSome = false → specStep cmp l (.insf k v) = (l, .ins l.length [])) ∧
+    (∀ s : BT κ ν × Int, (s.1.lookup cmp k).isSome = false → bstStep cmp s (.insf k v) = (s, .ins s.2 [])) ∧
+    (∀ s : AT κ ν × Int, (s.1.toBT.lookup cmp k).isSome = false → avlStep cmp s (.insf k v) = some (s, .ins s.2 [])) ∧
+    (∀ s : RT κ ν × Int, (s.1.toBT.lookup cmp k).isSome = false → rbStep cmp s (.insf k v) = some (s, .ins s.2 [])) := by
+  refine ⟨fun l h => ?_, fun s h => ?_, fun s h => ?_, fun s h => ?_⟩
+  · simp only [specStep, h]; rfl
+  · simp only [bstStep, h]; rfl
+  · simp only [avlStep, h]; rfl
+  · simp only [rbStep, h]; rfl
+
+/-- non-vacuity: a failing insert of a new key between two successful ones, then of a stored key (replaced) -/
+example : (match avlRun (κ := Nat) (ν := Nat) compare (.nil, 0) [.ins 2 20, .insf 1 10, .count, .insf 2 21, .get 2, .get 1] with
+    | some (_, [.ins _ _, .ins n1 d1, .num c, .ins n2 d2, .got g2, .got g1]) =>
+      n1 == 1 && d1.isEmpty && c == 1 && n2 == 1 && d2 == [(2, 20)] && g2 == some 21 && g1 == none
+    | _ => false) = true := by
   decide
 
 /-- `p_tree_new_full` gives a tree exactly for the three types, a comparator and a successful allocation — in particular a
